@@ -10,7 +10,7 @@
    _refuted theorems):  forall src d, to_g (G src d) = git_patch_delta src d. *)
 From Coq Require Import List NArith ZArith Bool String.
 From GoGit Require Import Base.Out Gen.C06 Model.Delta Spec.GitDelta
-  Proofs.C06Leaf Proofs.C06Apply Proofs.C06Diff.
+  Proofs.C06Leaf Proofs.C06Apply Proofs.C06Diff Proofs.C06DiffGit.
 Import ListNotations.
 Local Open Scope N_scope.
 
@@ -143,6 +143,14 @@ Theorem C06_diff_roundtrip_writer : forall (pick : nat -> option nat) src tgt,
   exists d, diff_delta pick src tgt = Some d /\ patch_delta_writer true src d = Ok tgt.
 Proof. exact diff_roundtrip_writer. Qed.
 Print Assumptions C06_diff_roundtrip_writer.
+
+(* git's own patch_delta maps go-git's delta back to the target (non-empty targets: git refuses the
+   2-byte delta of an empty target, known finding below-git-min-delta-size) *)
+Theorem C06_diff_git : forall (pick : nat -> option nat) src tgt,
+  bytes_ok tgt = true -> tgt <> [] -> len src <= 2 ^ 32 -> len tgt < 2 ^ 63 ->
+  exists d, diff_delta pick src tgt = Some d /\ git_patch_delta src d = GOk tgt.
+Proof. exact diff_git. Qed.
+Print Assumptions C06_diff_git.
 
 (* ---- the fuel of the model loops is sufficient: the out-of-fuel value is never produced *)
 Theorem C06_fuel_sufficient :
